@@ -347,6 +347,17 @@ func (c *Cluster) Release(token string) bool {
 	return true
 }
 
+// SetKeyspace adds or removes an existing keyspace.
+func (c *Cluster) SetKeyspace(ks string, exists bool) {
+	c.mu.Lock()
+	if exists {
+		c.Keyspaces[ks] = true
+	} else {
+		delete(c.Keyspaces, ks)
+	}
+	c.mu.Unlock()
+}
+
 // UntokenisedCount returns how many untokenised frames with this opcode the hosts have received.
 func (c *Cluster) UntokenisedCount(op byte) int {
 	c.mu.Lock()
